@@ -155,7 +155,7 @@ belongs to is held (worksheet fields under `ws.mu`, style tables under
 `CalcChain` under `File.mu`, …). -/
 theorem guarded_by_table :
     api.all (fun f => (accesses [] (Impl.trace f)).all
-      (fun a => a.2.2 || allowedUnguarded.contains a.1)) = true := by decide +kernel
+      (fun a => a.2.2 || allowedUnguarded.contains a.1 || syncMapClasses.contains a.1.1)) = true := by decide +kernel
 
 theorem okGuard_of_accesses (chk : Loc → Bool) : ∀ (t : List Act) (h : List String),
     (accesses h t).all (fun a => a.2.2 || !chk a.1) = true → okGuard guardOf chk h t = true := by
@@ -190,7 +190,9 @@ theorem okGuard_of_accesses (chk : Loc → Bool) : ∀ (t : List Act) (h : List 
         | false => simp
         | true => simp [hc] at h1 ⊢; exact h1
 
-def chkLoc (x : Loc) : Bool := !allowedUnguarded.contains x
+/-- checked locations: everything outside `allowedUnguarded`; the raw `sync.Map` operations
+(classes `SyncMap:*`, atomic one by one) are handled by `syncmap_idioms_attributed` -/
+def chkLoc (x : Loc) : Bool := !(allowedUnguarded.contains x || syncMapClasses.contains x.1)
 
 theorem trace_guarded {f : String} (hf : f ∈ api) : okGuard guardOf chkLoc [] (Impl.trace f) = true := by
   apply okGuard_of_accesses
@@ -199,7 +201,7 @@ theorem trace_guarded {f : String} (hf : f ∈ api) : okGuard guardOf chkLoc [] 
   intro a ha
   have h1 := List.all_eq_true.mp this a ha
   simp only [chkLoc, Bool.not_not]
-  exact h1
+  simpa [Bool.or_assoc] using h1
 
 theorem thread_guarded {calls : List String} (h : ∀ f ∈ calls, f ∈ api) :
     okGuard guardOf chkLoc [] (threadOf calls) = true := by
@@ -213,7 +215,7 @@ theorem thread_guarded {calls : List String} (h : ∀ f ∈ calls, f ∈ api) :
 
 /-- **documented_race_free** (*no data race* clause for the code): any number of
 goroutines calling any sequences of the documented functions never reach a state
-with a data race on a shared location outside `allowedUnguarded` — in particular
+with a data race on a checked location (`chkLoc`: outside `allowedUnguarded`) — in particular
 none on the worksheet grid, columns, data validations, drawing reference, the
 style tables, the shared-string table and its index map, the calculation chain,
 content-type and drawing-anchor lists, and the media / drawing part lists (the
@@ -222,8 +224,8 @@ footprint on the `sync.Map`s is hand-assigned in the extractor). -/
 theorem documented_race_free (threads : List (List String))
     (h : ∀ th ∈ threads, ∀ f ∈ th, f ∈ api) {s : Sys String Loc}
     (r : Reach (initSys (threads.map threadOf)) s) (x : Loc)
-    (hx : allowedUnguarded.contains x = false) : ¬ RaceOn s x := by
-  apply guarded_race_free guardOf chkLoc _ _ r x (by unfold chkLoc; rw [hx]; rfl)
+    (hx : chkLoc x = true) : ¬ RaceOn s x := by
+  apply guarded_race_free guardOf chkLoc _ _ r x hx
   intro p hp
   obtain ⟨th, hth, rfl⟩ := List.mem_map.mp hp
   exact thread_guarded (h th hth)
@@ -236,7 +238,7 @@ theorem covered_locations :
      ("File", "CalcChain"), ("CalcChain", "C"), ("ContentTypes", "list"), ("Drawing", "anchors"),
      ("File", "mediaParts"), ("File", "drawingParts"), ("File", "sharedStringItem"),
      ("File", "sharedStringTemp")].all
-      (fun x => !allowedUnguarded.contains x) = true := by decide
+      chkLoc = true := by decide
 
 /-- was `File.mu` held at the first access of the trace to location `x`? (`true` if none) -/
 def firstAccessUnder (g : String) (x : Loc) : List String → List Act → Bool
@@ -539,6 +541,60 @@ theorem instances_are_distinct :
     guardI (locOn 1 ("File", "mediaParts")) = some ("File", none) ∧
     chkI (locOn 1 ("Ws", "SheetData")) = true ∧ chkI (locOn 2 ("File", "mediaParts")) = true := by decide
 
+/-! ## `sync.Map` check-then-act idioms -/
+
+/-- all check-then-act instances of all API functions (computed from the skeletons) -/
+def idiomInstances : List (String × String × String × List String) :=
+  api.flatMap fun f => mapPairs syncMapClasses [] [] (Impl.traceM f)
+
+/-- idioms without a common workbook-wide lock, each with the reason why it is accepted:
+* `idempotent` — both goroutines store the same value, or re-store the pointer they loaded
+  (`readBytes` re-caches the bytes of a temp part; `xmlAttr` / `checked` entries are derived from
+  the unchanged part bytes; `addNameSpaces` / `setIgnorableNameSpace` add the same namespace the
+  other call adds; `addDrawingPicture` stores back the drawing object `drawingParser` returned);
+* `firstLoad` — worksheet cache: only the first load of a call matters and it is under `File.mu`
+  (`worksheet_first_load_locked`);
+* `dead` — `workbookReader`'s lazy branch (`File.WorkBook` is preloaded);
+* `perSheet` — a relationship part that belongs to one worksheet (sheet / drawing relationships),
+  created under that worksheet's mutex;
+* `candidate` — `relsReader`'s load-or-decode of an existing relationship part: `GetPictures`
+  decodes a sheet's / drawing's relationships holding no lock that `AddPicture` on the same sheet
+  holds, so in principle both could decode a private copy and one `Store` could drop a
+  relationship the other just added. NOT reproduced (witness `w-rels`, 14 runs with 2- and
+  40-entry parts: the parts are tiny and the two functions reach the decode at different times);
+  listed as an unreproduced candidate, not as a finding. -/
+def idiomAttribution : List ((String × String × String) × String) :=
+  [(("SyncMap:Pkg", "readXML", "readBytes"), "idempotent"),
+   (("SyncMap:xmlAttr", "workSheetReader", "workSheetReader"), "firstLoad"),
+   (("SyncMap:checked", "workSheetReader", "workSheetReader"), "firstLoad"),
+   (("SyncMap:Sheet", "workSheetReader", "workSheetReader"), "firstLoad"),
+   (("SyncMap:xmlAttr", "workbookReader", "workbookReader"), "dead"),
+   (("SyncMap:xmlAttr", "addNameSpaces", "addNameSpaces"), "idempotent"),
+   (("SyncMap:xmlAttr", "setIgnorableNameSpace", "setIgnorableNameSpace"), "idempotent"),
+   (("SyncMap:Drawings", "drawingParser", "addDrawingPicture"), "idempotent"),
+   (("SyncMap:Relationships", "relsReader", "addRels"), "perSheet"),
+   (("SyncMap:Relationships", "relsReader", "relsReader"), "candidate")]
+
+def attributedKeys : List (String × String × String) := idiomAttribution.map (·.1)
+
+/-- **syncmap_idioms_attributed**: every load-then-store idiom on a `sync.Map` field of `File`
+that any API function performs either happens, in EVERY instance, with `File.mu` held
+continuously from the load to the store, or is one of the ten attributed idioms. A new
+unguarded check-then-act (such as the former `addMedia` / drawing allocation defects, or a
+worksheet load outside `File.mu`) breaks this obligation. -/
+theorem syncmap_idioms_attributed :
+    idiomInstances.all (fun p =>
+      p.2.2.2.contains "File" || attributedKeys.contains (p.1, p.2.1, p.2.2.1)) = true := by
+  decide +kernel
+
+/-- the idioms that pass by the first disjunct (non-vacuity): media part allocation, drawing
+part load-or-create, and the temp-file bookkeeping of `sharedStringsLoader` -/
+theorem syncmap_guarded_idioms :
+    ((idiomInstances.filter fun p => !attributedKeys.contains (p.1, p.2.1, p.2.2.1)).map
+      fun p => (p.1, p.2.1, p.2.2.1)).eraseDups =
+    [("SyncMap:Drawings", "drawingLoader", "drawingLoader"), ("SyncMap:Pkg", "addMedia", "addMedia"),
+     ("SyncMap:tempFiles", "sharedStringsLoader", "sharedStringsLoader")] := by decide +kernel
+
 /-! ### critical sections of the setters (linearization points) -/
 
 /-- number of separate critical sections of `g` in which `x` is written -/
@@ -569,6 +625,18 @@ interleave and leave a row that neither call wrote (reproduced by the harness:
 `lin:SetSheetRow-torn`). Every single cell is still some call's value. -/
 theorem finding_setSheetRow_not_atomic :
     writeSections "Ws" ("Ws", "SheetData") false (Impl.trace "SetSheetRow") > 1 := by decide +kernel
+
+/-- **setSheetRow_is_cellwise** — the atomicity `SetSheetRow` actually provides. Its doc comment
+promises only "This function is concurrency safe" (no statement about the row as a unit); the
+property demands that the final workbook equal a sequential ordering of the CALLS. What holds:
+the worksheet sections of one `SetSheetRow` call are exactly those of `SetCellValue` (the loop
+body, flattened once), i.e. a `SetSheetRow` is a sequence of independent per-cell
+`SetCellValue` operations, each atomic (`setters_linearizable`): every interleaving equals a
+sequential ordering of the PER-CELL writes (each cell holds the value of some call, no cell
+is lost — `distinct_cells_all_present`), but not of whole rows
+(`finding_setSheetRow_not_atomic`, reproduced as `lin:SetSheetRow-torn`). -/
+theorem setSheetRow_is_cellwise :
+    callBlocks "Ws" 0 "SetSheetRow" = callBlocks "Ws" 0 "SetCellValue" := by decide +kernel
 
 /-- `NewStyle` looks the requested style up and appends it inside one critical
 section of the style-sheet mutex (look-up and append cannot be separated by
